@@ -559,6 +559,13 @@ constexpr MagRepresentationOrError<T> get_value_result(Magnitude<BPs...>) {
         return {MagRepresentationOutcome::ERR_CANNOT_FIT};
     }
 
+    // Magnitudes are strictly positive.  If a floating point result is zero, then the true value
+    // underflowed: it is too small to fit, and we must not pretend it is representable.
+    if (std::is_floating_point<RealPart<T>>::value &&
+        (static_cast<RealPart<T>>(widened_result.value) == RealPart<T>{0})) {
+        return {MagRepresentationOutcome::ERR_CANNOT_FIT};
+    }
+
     return {MagRepresentationOutcome::OK, static_cast<T>(widened_result.value)};
 }
 
